@@ -621,6 +621,16 @@ func Enumerate(t *testing.T, name string, sharded bool, fn func(shard, shards in
 
 // Hex helpers used by case structs.
 func H(b []byte) string { return hex.EncodeToString(b) }
+
+// Sum64 is FNV-1a over b (for deterministic per-input choices).
+func Sum64(b []byte) uint64 {
+	h := uint64(14695981039346656037)
+	for _, x := range b {
+		h ^= uint64(x)
+		h *= 1099511628211
+	}
+	return h
+}
 func UnH(s string) []byte {
 	b, err := hex.DecodeString(s)
 	if err != nil {
